@@ -23,7 +23,9 @@ RULE = (
     "|sum c_k x_k| <= tol ||x||_2 (1+2^-30) + sum|c_k| 2^-(p+57) (||x||_2+1) (the second term is the truncation of the "
     "inputs to p+60 fixed-point bits; tol is the value passed or 2^-int(0.75 p)).  Completeness: when a relation with "
     "height h <= 100 exists, n <= 5, h < maxcoeff, maxsteps >= 1000, -log2 tol >= 2 n log2(2 maxcoeff) + 30, "
-    "p >= -log2 tol + log2(n h) + 10, p >= 4 n log2(2h) + 30 and no entry is smaller than 2^-20 ||x||, the result must not "
+    "p >= -log2 tol + log2(n h) + 10, p >= 4 n log2(2h) + 30, no entry is smaller than 2^-20 ||x|| and the real entries are "
+    "generic (mantissas from a SHA-256 stream of a drawn seed, or constants; Hypothesis' structured integers have "
+    "accidental near-relations), the result must not "
     "be None and must annihilate the 3p+164-bit values (residual <= 2^-2p sum|c_k x_k|).  findpoly: x = root of a "
     "generated integer polynomial of degree 1..6 (exact bisection to 3p+64 bits), rational, (a+b sqrt c)/d, "
     "sqrt a + sqrt b, (a + cbrt b)/c, a transcendental constant or a random real; n in 1..6 (8 rarely); result is a list "
@@ -66,7 +68,7 @@ ID_COMPOUND = ["pi/4", "pi+1", "e/2", "sqrt(2)+1", "pi**2/4", "2*log(2)", "e-1",
 
 def shards(tier):
     k = 1 if tier == "quick" else 25
-    return ([("pslq", 2200 * k)] * 5 + [("findpoly", 1000 * k)] * 4 + [("identify", 200 * k)] * 7)
+    return ([("pslq", 2200 * k)] * 5 + [("findpoly", 2000 * k)] * 4 + [("identify", 400 * k)] * 7)
 
 
 # ------------------------------------------------------------------------------------------------ generation
@@ -124,7 +126,8 @@ def _gen_pslq(d, tier):
     p = _prec(d)
     if d.int(0, 60) == 0:
         p = d.int(30, 52)
-    c = {"kind": "pslq", "p": p, "rel": None, "tol": None, "maxcoeff": None, "maxsteps": None, "scale": 0}
+    c = {"kind": "pslq", "p": p, "rel": None, "tol": None, "maxcoeff": None, "maxsteps": None, "scale": 0,
+         "generic": True}
     if kind == "complete":
         # the regime in which the relation has to be found
         n = d.int(2, 5)
@@ -205,7 +208,11 @@ def _gen_pslq(d, tier):
     for i in range(n):
         t = d.weighted([(6, "raw"), (3, "const"), (1 if scale == 0 else 0, "int")])
         if t == "raw":
-            items.append(["raw", J(_rand_real(d, p) if d.int(0, 2) == 0 else _generic_real(d, p))])
+            if d.int(0, 2) == 0:
+                items.append(["raw", J(_rand_real(d, p))])
+                c["generic"] = False
+            else:
+                items.append(["raw", J(_generic_real(d, p))])
         elif t == "const":
             items.append(["const", d.choice(list(CONST))])
         else:
@@ -336,7 +343,7 @@ def _gen_identify(d, tier):
             consts[1] = "catalan"
     if style == "dict":
         names = ["a", "b", "zz", "K1"]
-        cspec = ["dict", [[names[i], (["expr", consts[i]] if d.bool() else ["raw", J(_posreal(d, p))])]
+        cspec = ["dict", [[names[i], (["expr", consts[i]] if d.bool() else ["raw", J(_posreal(d, p, generic=True))])]
                           for i in range(nconst)]]
     else:
         cspec = ["list", consts]
@@ -423,9 +430,14 @@ def _gen_identify(d, tier):
     return c
 
 
-def _posreal(d, p, wide=False):
-    """p-bit real in [1/2, 4) (wide: [1/16, 8))"""
-    m = (1 << (p - 1)) | d.bits(p - 1)
+def _posreal(d, p, wide=False, generic=False):
+    """p-bit real in [1/2, 4) (wide: [1/16, 8)); generic: pseudo-random mantissa (base constants must not be
+    (nearly) rational, see the docstring of identify)"""
+    if generic:
+        m = _generic_real(d, p)[1]
+        m <<= p - m.bit_length()
+    else:
+        m = (1 << (p - 1)) | d.bits(p - 1)
     e = d.int(-4, 2) if wide else d.int(-1, 1)
     return exact.mk(0, m, e - p + 1)
 
@@ -746,7 +758,7 @@ def _check_pslq(c, res):
     # is completeness required?
     complete = False
     h = None
-    if rel is not None and n <= 5 and p >= 53:
+    if rel is not None and n <= 5 and p >= 53 and c.get("generic"):
         h = _height(rel)
         nrm = _sqrt_up(sum(v * v for v in xv))
         minx = min(abs(v) for v in xv)
@@ -925,6 +937,14 @@ def _check_identify(c, res):
             res.bad("identify:zerodivision", "%s raised ZeroDivisionError" % what)
         mp.prec = p
         return res
+    except TypeError as e:
+        if "NoneType" in str(e) and full:
+            res.bad("identify:typeerror:empty_product", "%s raised TypeError(%s): x is within tol of 1, the multiplicative "
+                                                        "search returns a relation without factors, prodstring gives None and "
+                                                        "sorted(solutions, key=len) fails" % (what, e))
+            mp.prec = p
+            return res
+        raise
     if mp.prec != p:
         res.bad("identify:prec_leak", "%s left mp.prec = %d" % (what, mp.prec))
         mp.prec = p
@@ -961,6 +981,12 @@ def _check_identify(c, res):
                         "%s returned %r which evaluates to %s, not x; the constant expression is pasted into the formula "
                         "without parentheses (%r is correct)" % (what, s, info, s2))
                 continue
+        if "sqrt(0)" in s:
+            res.bad("identify:quadratic_zero_discriminant",
+                    "%s returned %r which evaluates to %s; x = %.17g, allowed difference %.3g: a quadratic with a double "
+                    "root is accepted because its residual (t-r)^2 is below tol although |t-r| ~ sqrt(tol)" % (
+                        what, s, info, _fl(xF), _fl(bound)))
+            continue
         res.bad("identify:value", "%s returned %r which evaluates to %s; x = %.17g, allowed difference %.3g" % (
             what, s, info, _fl(xF), _fl(bound)))
     return res
